@@ -45,6 +45,7 @@ class C04(Check):
         "RedshiftData.from_corrfuncs/from_corrdata (value and every sample) against w_sp/sqrt(dz^2 w_ss w_pp) with "
         "absent autocorrelations = 1, NaN patterns included; HistData/RedshiftData.normalised() integrate to 1 with "
         "samples scaled like the value. non-trivial = at least one finite estimator value compared; distinct = case parameters"
+        ' Further classes: accessors used before sample(), bins empty in the data but populated in the randoms (0/0 terms judged through the NaN pattern), containers with more than 512 patches.'
     )
     assumptions = [
         "when both DR and RD exist without RR either Davis-Peebles form is accepted (the statement allows both)",
